@@ -46,3 +46,13 @@ Theorem C12_no_vouching :
     flow_valid delay ops = true -> never_objects delay [122; 131] ops.
 Proof. exact no_vouching. Qed.
 Print Assumptions C12_no_vouching.
+
+(* gating, as an executable statement over operations and observations: the monitor judges by itself
+   (from the chain in the digest) whether a headers message verifies the connection and objects when an
+   inv / tx of an unverified connection is processed (302) or the verified flag is not what the rule says (303);
+   it never objects to the model, on any history *)
+Theorem C12_gate_monitor_silent :
+  forall (MAXR LIM HT HDT BT DELTA : Z) (parents : list (Z * Z)) (start : Z) (ops : list Sync.op),
+    c12_gate_monitor DELTA ops (Sync.run MAXR LIM HT HDT BT DELTA parents start ops) = None.
+Proof. exact c12_gate_silent. Qed.
+Print Assumptions C12_gate_monitor_silent.
